@@ -243,6 +243,8 @@ def run(ctx):
     oidx = {o["case"]: o for o in obs}
     drift = collections.OrderedDict()
     per_rule = collections.Counter()
+    # shortest scripts first (well-formed endings before malformed ones): the replay file of a class is its simplest instance
+    verdicts.sort(key=lambda v: (cidx[v["case"]].get("term", "eof") not in ("eof", "none"), len(cidx[v["case"]]["ev"]), v["case"], v["rule"]))
     for v in verdicts:
         c, o = cidx[v["case"]], oidx[v["case"]]
         if v["rule"] == "harness":
